@@ -17,14 +17,18 @@ VARIABLES D,       \* depth of the chain
           place,   \* level -> file index (1..3); several types may share a file
           rank,    \* permutation: enumeration order of the three module files
           progFirst, \* the program file is enumerated before / after the modules
+          oneModule, \* all types live in ONE module which also holds PRIVATE components p_i and a procedure using them
+          editRoot,  \* after indexing, the root type's component c1 is renamed to c9 by an unsaved edit
           members, owner
-vars == <<D, place, rank, progFirst, members, owner>>
+vars == <<D, place, rank, progFirst, oneModule, editRoot, members, owner>>
 
 RECURSIVE Mem(_)
 Mem(i) == IF i = 0 THEN {} ELSE {<<"c", i>>, <<"b", i>>} \cup Mem(i - 1)
 
 Init == /\ D \in 1..MaxD
         /\ place \in [1..MaxD -> 1..3] /\ rank \in Perms3 /\ progFirst \in BOOLEAN
+        /\ oneModule \in BOOLEAN /\ editRoot \in BOOLEAN
+        /\ (oneModule => place = [i \in 1..MaxD |-> 1] /\ rank = <<1, 2, 3>>)
         /\ members = [i \in 1..MaxD |-> Mem(i)]
         /\ owner = [m \in Mem(MaxD) |-> m[2]]
 Next == UNCHANGED vars
